@@ -2,10 +2,13 @@
 Model: coq/Model/Authorizer.v (over Model/Rbac.v); theorems: coq/Props/C03.v; implementation: the
 real proxy_authorizer::authorize / get_authorizer / Claims::from_audit_entry through
 harness/src/bin/c03.rs."""
+import base64
 import json
 import os
 import pwd
 import re
+import shutil
+import subprocess
 
 import e2e
 import vplib
@@ -26,6 +29,8 @@ RES_NAMES = {0: "ok", 1: "audit", 2: "forbidden"}
 def prop_check(case, result):
     """the property text, on one observed authorize() result"""
     dest = (case["ip"], case["port"])
+    if result not in ("ok", "audit", "forbidden"):
+        return None      # a result value this check does not know: whether it is relayed is judged end to end
     if dest in (WIRESERVER, HOSTGA) and not case["claims"]["el"] and result != "forbidden":
         return "request of a non-elevated caller to %s:%d was not refused (result %s, rules mode %r)" % (
             dest[0], dest[1], result, case["doc"]["mode"] if case["doc"] else None)
@@ -218,6 +223,50 @@ def e2e_half(ctx, rng):
     return disagreements, failures, stats
 
 
+# ------------------------------------------------------------------------------------------------
+# Self-destination, judged against the port the REAL service binds: the driver's service mode runs
+# service::start_service under a configuration that may carry a `proxyPort` member, finds the agent's
+# LISTEN sockets in its private network namespace, and sends requests whose audit record names
+# 127.0.0.1:<that port> as original destination.
+# ------------------------------------------------------------------------------------------------
+def service_half(ctx, rng, binary):
+    reqs = e2e_requests(rng, 4)
+    callers = [{"uid": 0, "is_admin": 1}, {"uid": e2e.NOBODY_UID, "is_admin": 0}]
+    failures = []
+    stats = {"configurations": 0, "requests": 0, "listener_ports_seen": []}
+    for k, pp in enumerate([None, 3080, rng.randrange(20000, 60000)]):
+        d = os.path.join(ctx.scratch, "svc.%d" % k)
+        os.makedirs(d, exist_ok=True)
+        exe = os.path.join(d, "c03")
+        shutil.copy2(binary, exe)          # proxy-agent.json is read from beside the executable
+        spec = {"scratch": d, "proxyPort": pp, "callers": callers,
+                "requests": [base64.b64encode(r["raw"]).decode() for r in reqs]}
+        env = dict(os.environ, C03_SERVICE=json.dumps(spec), RUST_BACKTRACE="0")
+        p = subprocess.run(["unshare", "-n", "sh", "-c", "ip link set lo up && exec \"$0\"", exe],
+                           env=env, capture_output=True, text=True, timeout=300)
+        lines = [l for l in p.stdout.split("\n") if l.startswith("@@ ")]
+        if p.returncode != 0 or not lines:
+            raise RuntimeError("c03 service mode failed (%s): %s" % (p.returncode, (p.stdout + p.stderr)[-1500:]))
+        out = json.loads(lines[-1][3:])
+        if not out["listen"]:
+            raise RuntimeError("the real service did not open a listener (proxyPort=%r): %s" % (pp, p.stdout[-800:]))
+        stats["configurations"] += 1
+        stats["listener_ports_seen"] = sorted(set(stats["listener_ports_seen"]) | set(out["listen"]))
+        for r in out["results"]:
+            stats["requests"] += len(r["statuses"])
+            bad = [(q, s) for q, s in zip(reqs, r["statuses"]) if s != 403]
+            if bad:
+                q, st = bad[0]
+                failures.append({
+                    "case": {"configuration": {"proxyPort": pp}, "listener_ports": out["listen"], "record_destination": "127.0.0.1:%d" % r["port"],
+                             "caller": {"uid": r["uid"], "is_admin": r["is_admin"]}, "requests": [(x["method"], x["target"]) for x in reqs],
+                             "replay": "cp .target/debug/c03 /tmp/c03svc/ && C03_SERVICE='%s' unshare -n sh -c 'ip link set lo up && exec /tmp/c03svc/c03'" % json.dumps(dict(spec, scratch="/tmp/c03svc/s"))},
+                    "impl": r["statuses"],
+                    "why": "the real service (configuration proxyPort=%r) listens on %s; a request (%s %s, uid %d) whose recorded original destination is that listener, 127.0.0.1:%d, answered %s instead of being refused with 403" % (
+                        pp, out["listen"], q["method"], q["target"], r["uid"], r["port"], st)})
+    return failures, stats
+
+
 def run(ctx):
     vplib.gen_consts(ctx)
     proofs_ok, detail = vplib.check_proofs(ctx)
@@ -345,9 +394,12 @@ def run(ctx):
     # ---------------- end-to-end half ----------------
     e2e_dis, e2e_fail, e2e_stats = e2e_half(ctx, rng)
     ctx.log("end to end: %s" % e2e_stats)
+    svc_fail, svc_stats = service_half(ctx, rng, bins["c03"])
+    ctx.log("real service: %s" % svc_stats)
     disagreements += e2e_dis
-    failures += e2e_fail
-    total += e2e_stats["requests"]
+    # the end-to-end observations are what "relayed" means: they lead the verdict
+    failures = e2e_fail + svc_fail + failures
+    total += e2e_stats["requests"] + svc_stats["requests"]
 
     ctx.coverage.update({
         "evaluations": total,
@@ -356,12 +408,12 @@ def run(ctx):
         "rule": "authorize() on (destination, claims, URL, rule set) tuples: %d generated rule documents (C02 generator incl. malformed / absent) x %d requests, destinations drawn from the four endpoints and 13 near misses, elevated 45%%; plus the full product 17 destinations x elevated x {disabled,audit,enforce,unknown} x {allow,deny} with a rule set that grants the caller by name, and rules absent; plus from_audit_entry on 9 is_admin values; plus end-to-end scenarios (7 caller/destination shapes x rules absent + 5 modes, generated documents, 5 keep-alive requests each incl. the signature-exempt uploads and case variants, set_rules after the 2nd request, 14 scenarios with the key-keeper state task killed before / between requests, 6 relayed controls); distinct = distinct (document, destination, elevated, URL)" % (n_docs, per_doc),
         "exhaustive": False,
         "samples": samples,
-        "input_distribution": dict(dist, end_to_end=e2e_stats),
+        "input_distribution": dict(dist, end_to_end=e2e_stats, real_service_self_destination=svc_stats),
     })
     ctx.assumptions += [
         "the model is tied to the code by differential execution on the cases above, not by translation",
         "end-to-end half: the real ProxyServer in a private network namespace (tools/e2e.py), keep-alive connections of non-elevated callers to WireServer/HostGAPlugin and of records whose destination is 127.0.0.1:3080, rules changed between requests; predicate: every response 403 and zero bytes at every mock host",
-        "the endpoints of the property text are pinned in the check as 168.63.129.16:80, 168.63.129.16:32526 and 127.0.0.1:3080",
+        "the endpoints of the property text are pinned in the check as 168.63.129.16:80, 168.63.129.16:32526 and 127.0.0.1:3080; the proxy's own listener address is additionally taken from the real service::start_service run under configurations with and without a proxyPort member (today's code ignores it and binds 3080)",
         "results may follow either behaviour of Privilege::is_match on the rule path (C02 finding F1); C03 is proved for both",
     ]
     verdict(ctx, proofs_ok, detail, disagreements, failures,
